@@ -3,6 +3,7 @@
 package ingest
 
 import (
+	"diagonal.works/b6"
 	"diagonal.works/b6/verifrt"
 	"github.com/golang/geo/s1"
 	"github.com/golang/geo/s2"
@@ -24,4 +25,108 @@ func verifLemma_C10_latlng_id(ll s2.LatLng) {
 	verifrt.Assert(ok, "namespace")
 	verifrt.Assert(got.Lat == wantLat, "lat")
 	verifrt.Assert(got.Lng == wantLng, "lng")
+}
+
+// ---- C38: clones and stored features share no mutable state with their source ----
+// Witness lemmas: clone (or merge into a stored feature), then change the copy
+// (or the source) through its public API, and observe the other side.
+
+func vStringTag(k string, v string) b6.Tag { return b6.Tag{Key: k, Value: b6.NewStringExpression(v)} }
+
+func vTagIs(t b6.Tag, k string, v string) bool {
+	s, ok := t.Value.AnyExpression.(b6.StringExpression)
+	return ok && t.Key == k && string(s) == v
+}
+
+func verifLemma_C38_generic_clone(id b6.FeatureID, k, v, k2, v2 string) {
+	f := &GenericFeature{ID: id, Tags: b6.Tags{vStringTag(k, v)}}
+	c := f.Clone().(*GenericFeature)
+	c.Tags[0] = vStringTag(k2, v2)
+	verifrt.Assert(vTagIs(f.Tags[0], k, v), "original-tags-unchanged-by-clone-edit")
+	f.Tags[0] = vStringTag(k2, v2)
+	d := f.Clone().(*GenericFeature)
+	f.Tags[0] = vStringTag(k, v)
+	verifrt.Assert(vTagIs(d.Tags[0], k2, v2), "clone-tags-unchanged-by-original-edit")
+}
+
+func verifLemma_C38_area_members_clone(id0, id1, x b6.FeatureID) {
+	a := NewAreaMembers(1)
+	a.SetPathIDs(0, []b6.FeatureID{id0, id1})
+	c := a.Clone()
+	c.SetPathID(0, 0, x)
+	got, ok := a.PathIDs(0)
+	verifrt.Assert(ok && len(got) == 2 && got[0] == id0 && got[1] == id1, "original-paths-unchanged-by-clone-edit")
+	a.SetPathID(0, 1, x)
+	cgot, cok := c.PathIDs(0)
+	verifrt.Assert(cok && len(cgot) == 2 && cgot[0] == x && cgot[1] == id1, "clone-paths-unchanged-by-original-edit")
+}
+
+func verifLemma_C38_area_feature_clone(aid b6.AreaID, id0, x b6.FeatureID, k, v, k2, v2 string) {
+	a := NewAreaFeature(1)
+	a.AreaID = aid
+	a.Tags = b6.Tags{vStringTag(k, v)}
+	a.SetPathIDs(0, []b6.FeatureID{id0})
+	c := a.CloneAreaFeature()
+	c.SetPathID(0, 0, x)
+	c.Tags[0] = vStringTag(k2, v2)
+	got, ok := a.PathIDs(0)
+	verifrt.Assert(ok && len(got) == 1 && got[0] == id0, "original-paths-unchanged-by-clone-edit")
+	verifrt.Assert(vTagIs(a.Tags[0], k, v), "original-tags-unchanged-by-clone-edit")
+}
+
+func verifLemma_C38_relation_clone(rid b6.RelationID, m0, m1 b6.RelationMember, k, v string) {
+	r := &RelationFeature{RelationID: rid, Tags: b6.Tags{vStringTag(k, v)}, Members: []b6.RelationMember{m0}}
+	c := r.CloneRelationFeature()
+	c.Members[0] = m1
+	verifrt.Assert(r.Members[0] == m0, "original-members-unchanged-by-clone-edit")
+	r.Members[0] = m1
+	d := r.CloneRelationFeature()
+	r.Members[0] = m0
+	verifrt.Assert(d.Members[0] == m1, "clone-members-unchanged-by-original-edit")
+}
+
+func verifLemma_C38_collection_clone(cid b6.CollectionID, k0, k1, v0, v1 int) {
+	f := &CollectionFeature{CollectionID: cid, Keys: []interface{}{k0}, Values: []interface{}{v0}}
+	c := f.Clone().(*CollectionFeature)
+	c.Keys[0] = k1
+	c.Values[0] = v1
+	fk, fkok := f.Keys[0].(int)
+	fv, fvok := f.Values[0].(int)
+	verifrt.Assert(fkok && fk == k0, "original-keys-unchanged-by-clone-edit")
+	verifrt.Assert(fvok && fv == v0, "original-values-unchanged-by-clone-edit")
+}
+
+// The stored feature a mutable world keeps (ModifiedFeatures.Update merges the
+// caller's value into it) must not share slices with the caller's value.
+func verifLemma_C38_collection_merge(cid b6.CollectionID, k0, k1, v0, v1 int, tk, tv, tk2, tv2 string) {
+	caller := &CollectionFeature{CollectionID: cid, Tags: b6.Tags{vStringTag(tk, tv)}, Keys: []interface{}{k0}, Values: []interface{}{v0}}
+	stored := &CollectionFeature{}
+	stored.MergeFrom(caller)
+	caller.Keys[0] = k1
+	caller.Values[0] = v1
+	caller.Tags[0] = vStringTag(tk2, tv2)
+	sk, skok := stored.Keys[0].(int)
+	sv, svok := stored.Values[0].(int)
+	verifrt.Assert(skok && sk == k0, "stored-keys-unchanged-by-caller-edit")
+	verifrt.Assert(svok && sv == v0, "stored-values-unchanged-by-caller-edit")
+	verifrt.Assert(vTagIs(stored.Tags[0], tk, tv), "stored-tags-unchanged-by-caller-edit")
+}
+
+func verifLemma_C38_area_merge(aid b6.AreaID, id0, x b6.FeatureID) {
+	caller := NewAreaFeature(1)
+	caller.AreaID = aid
+	caller.SetPathIDs(0, []b6.FeatureID{id0})
+	stored := NewAreaFeature(0)
+	stored.MergeFrom(caller)
+	caller.SetPathID(0, 0, x)
+	got, ok := stored.PathIDs(0)
+	verifrt.Assert(ok && len(got) == 1 && got[0] == id0, "stored-paths-unchanged-by-caller-edit")
+}
+
+func verifLemma_C38_relation_merge(rid b6.RelationID, m0, m1 b6.RelationMember) {
+	caller := &RelationFeature{RelationID: rid, Members: []b6.RelationMember{m0}}
+	stored := &RelationFeature{}
+	stored.MergeFrom(caller)
+	caller.Members[0] = m1
+	verifrt.Assert(len(stored.Members) == 1 && stored.Members[0] == m0, "stored-members-unchanged-by-caller-edit")
 }
